@@ -267,11 +267,13 @@ def lookup(a: List[Item], r: bool, f: bool) -> bool:
 
 # ---------------------------------------------------------------- Sonar reader
 IDS = [7, 8, 9]
+# Sonar component keys are <projectKey>:<path>; a project key may itself contain colons, or be absent
+COMPONENT_PREFIX = ["proj:", "org.example:proj:", ""]
 STATUSES = ["OPEN", "TO_REVIEW", "CLOSED", "RESOLVED", "open", "REVIEWED"]  # REVIEWED: a closed hotspot
 
 
 def _sonar_entry(sel: int, status: int, use_rulekey: bool, has_key: bool, sl: int, so: int, el: int, eo: int, idx: int):
-    d = {"status": pick(STATUSES, status), "component": "proj:" + str(pick(FILES, sel)), "textRange": {"startLine": sl, "startOffset": so, "endLine": el, "endOffset": eo}}
+    d = {"status": pick(STATUSES, status), "component": pick(COMPONENT_PREFIX, sel // 4) + str(pick(FILES, sel)), "textRange": {"startLine": sl, "startOffset": so, "endLine": el, "endOffset": eo}}
     d["ruleKey" if use_rulekey else "rule"] = pick(RULES, sel // 2)
     if has_key:
         d["key"] = "K%d" % idx
